@@ -2493,6 +2493,11 @@ func (d *tkC10) hookIntent() (rig.Tx, bool) {
 		args.Var, tag.Var = "two-logs", "two-logs"
 		amt = randFrac(rng, new(big.Int).Quo(h.b, big.NewInt(2)))
 		args.Amount2 = randFrac(rng, new(big.Int).Quo(h.b, big.NewInt(2))).String()
+		if rng.Intn(3) == 0 {
+			// the first of the two events carries nothing (a share that rounded to zero), the second a positive amount
+			amt = new(big.Int)
+			d.run.Count("hook-receipt-with-an-empty-event-before-a-positive-one", 1)
+		}
 	case k == 5:
 		args.Var, tag.Var = "foreign-log", "foreign-log"
 	}
